@@ -407,12 +407,52 @@ func c17(c *core.Ctx) {
 		"every step is repeated on a freshly built key object under the same deterministic random stream and must give byte-identical results, plus solo contracts and a spy-trace specification; distinct = operation bigrams x suite and trigrams observed; all 25 bigrams required")
 	c.Info("assumptions", "deterministic crypto/rand.Reader replacement makes EncodeEncrypt a pure function of (message, keys, stream)")
 	c.Family("histories", c.N(9*300, 9*100000), c17History)
+	// runs of CONSECUTIVE rejected datagrams (a flood of garbage on the SA's port), then genuine traffic: counts
+	// around 8-bit and 16-bit limits
+	c.Family("rejection-runs", c.N(9*8, 9*12), func(k *core.Case) {
+		s := ref.Suites[k.Index%9]
+		raw := libsa.RandomRaw(k.R, s)
+		long, err := libsa.NewKey(raw)
+		if err != nil {
+			return
+		}
+		run := []int{1, 7, 127, 254, 255, 256, 257, 300, 1000, 4096, 65535, 65537}[k.Index/9%12]
+		recvInit := k.R.Bool()
+		peer, _ := libsa.NewKey(raw)
+		m := gen.Msg(k.R, gen.Opt{Protected: true, MaxPayloads: 2})
+		g, gerr, gp := libProtect(m, peer, !recvInit)
+		if gerr != nil || gp != nil {
+			return
+		}
+		for i := 0; i < run; i++ {
+			f := append([]byte{}, g...)
+			f[32+k.R.Intn(len(f)-32)] ^= byte(1 + k.R.Intn(255))
+			k.Eval(1)
+			if _, err, p := libUnprotectWith(f, nil, long, recvInit); err == nil || p != nil {
+				k.Violate("accepted", "forged-accepted-in-a-rejection-run", fmt.Sprint(err, p), M{"suite": s.Name(), "run": i})
+				return
+			}
+		}
+		for j := 0; j < 3; j++ {
+			d, err, p := libUnprotectWith(append([]byte{}, g...), nil, long, recvInit)
+			if err != nil || p != nil || !abs.Equal(m, d) {
+				k.Violate("history-dependence", "genuine-rejected-after-a-run-of-rejections", fmt.Sprintf("after %d consecutive rejected datagrams: %v %v", run, err, p), M{"suite": s.Name(), "keys": raw.JSON(), "run": run})
+				return
+			}
+			if b, err, p := libProtect(m, long, recvInit); err != nil || p != nil || len(b) == 0 {
+				k.Violate("history-dependence", "protect-fails-after-a-run-of-rejections", fmt.Sprint(err, p), M{"suite": s.Name(), "run": run})
+				return
+			}
+		}
+		k.Count("rejection_runs", 1)
+		k.Distinct(fmt.Sprintf("rejrun|%d", run))
+	})
 	var req []string
 	for a := 0; a < nOps; a++ {
 		for b := 0; b < nOps; b++ {
 			req = append(req, "bigram_"+opNames[a]+">"+opNames[b])
 		}
 	}
-	req = append(req, "forgeries_keeping_the_last_accepted_checksum", "long_lived_sa_histories")
+	req = append(req, "forgeries_keeping_the_last_accepted_checksum", "long_lived_sa_histories", "rejection_runs")
 	c.Require(req...)
 }
